@@ -77,6 +77,33 @@ ViewLeaves ==
                    \o (IF pa THEN <<[k |-> KSpanParent, v |-> 23]>> ELSE <<>>)] :
             tr \in BOOLEAN, sp \in BOOLEAN, pa \in BOOLEAN}
 
+\* The Extent view by the way the extent was obtained.  `src` names the public entry point,
+\* `a` / `b` the start / end given to it (None: not given), `kvs` what the view then holds:
+\*   point / range      Extent::point(b), Extent::range(a..b)           (the leaves above)
+\*   ts / range_ts      ToExtent for Timestamp, for Range<Timestamp>
+\*   optrange           ToExtent for Range<Option<Timestamp>>, every combination of bounds
+\*   opt / ref          ToExtent for Option<T> / &T over an Extent
+\*   span / metric / event            the extent a carrier built with `new` hands out
+\*   span_with / metric_with / event_with   the same after `with_extent`
+\* All but point / range yield an Option<Extent>, itself a collection (nothing when None).
+\* The statement does not say which extent a half-open Range<Option<..>> stands for (X02
+\* does): both "nothing" and "the one bound, as a point" are collections of their own here
+\* and the harness judges the one the real conversion shows (as for NestedCtxts).
+ExtSrcFull == {"range_ts", "optrange", "opt", "ref", "span", "metric", "event",
+               "span_with", "metric_with", "event_with"}
+ExtContent(a, b) ==
+    IF a # None /\ b # None THEN {<<[k |-> KTsStart, v |-> a], [k |-> KTs, v |-> b]>>}
+    ELSE IF a = None /\ b = None THEN {<<>>}
+    ELSE {<<>>, <<[k |-> KTs, v |-> IF a # None THEN a ELSE b]>>}
+ExtentSrcLeaves ==
+    {[op |-> "extent", src |-> s, a |-> 3, b |-> 5, kvs |-> c] : s \in ExtSrcFull, c \in ExtContent(3, 5)}
+    \cup {[op |-> "extent", src |-> s, a |-> None, b |-> 5, kvs |-> <<[k |-> KTs, v |-> 5]>>] :
+             s \in {"ts", "opt", "ref", "span", "metric_with", "event"}}
+    \cup {[op |-> "extent", src |-> s, a |-> None, b |-> None, kvs |-> <<>>] :
+             s \in {"optrange", "span", "metric", "event_with", "span_with", "metric_with"}}
+    \cup {[op |-> "extent", src |-> "optrange", a |-> 3, b |-> None, kvs |-> c] : c \in ExtContent(3, None)}
+    \cup {[op |-> "extent", src |-> "optrange", a |-> None, b |-> 5, kvs |-> c] : c \in ExtContent(None, 5)}
+
 \* ThreadLocalCtxt snapshots after 2-3 nested pushed frames with overlapping keys.  Which
 \* frame's value a snapshot holds for a repeated key is C03's subject: every resolution
 \* (each key takes the value of any frame that has it) is a collection of its own here,
@@ -271,6 +298,11 @@ MC_Seeds(m) ==
     IF Which = "big" THEN BigLeaves \cup BigJoins
     ELSE IF Which = "views" THEN AllViews \cup {[op |-> o, t |-> x] : o \in {"dedup", "erased"}, x \in AllViews}
                             \cup {[op |-> "and", l |-> x, r |-> y] : x \in ViewRights(70), y \in AllViews}
+                            \cup ExtentSrcLeaves
+                            \cup {[op |-> "and", l |-> x, r |-> y] :
+                                     x \in {[op |-> "pair", kvs |-> KVs(<<KTs>>, 70)],
+                                            [op |-> "arr", kvs |-> KVs(<<KTsStart, KTs, KTs>>, 70)]},
+                                     y \in ExtentSrcLeaves}
     ELSE IF IsSites THEN (IF Which = "sites_quick" THEN SitesQuick(0) ELSE SitesThorough(0))
     ELSE T(ModesFor(Which)[m][1], ModesFor(Which)[m][2], 0) \cup {[op |-> "none"]}
 MC_Rights(m) ==
